@@ -153,11 +153,11 @@ def gen_push(rng, n):
     return out
 
 
-def run_fmt(lines):
+def run_fmt(lines, binary=None):
     with tempfile.TemporaryDirectory(prefix="fmtv") as td:
         sp = os.path.join(td, "s.txt")
         open(sp, "w").write("\n".join(lines) + "\n")
-        rc, out = C.sh([FMT, sp], timeout=900)
+        rc, out = C.sh([binary or FMT, sp], timeout=900)
         if rc != 0:
             raise C.Broken("fmt harness failed", out[-2000:])
         return [l for l in out.split("\n") if l.strip()]
